@@ -155,9 +155,9 @@ Proof. apply gen_evaluate_circuit_agree. Qed.
 
 (* ---------------------------------------------------------------- evaluate_circuit_outputs *)
 Lemma gen_evaluate_circuit_outputs_agree c a :
-  agree c (gen_evaluate_circuit_outputs (eval_fuel c (outputs c)) c a) (evaluate_circuit_outputs c a).
+  agree c (gen_evaluate_circuit_outputs outputs_fuel c a) (evaluate_circuit_outputs c a).
 Proof.
-  unfold gen_evaluate_circuit_outputs, evaluate_circuit_outputs.
+  unfold gen_evaluate_circuit_outputs, evaluate_circuit_outputs, outputs_fuel.
   apply agree_bind; [apply (gen_evaluate_circuit_agree' c a None)|].
   intros d. apply agree_eq. apply foldM_ext. intros acc o. unfold dget_res.
   destruct (dget d o); reflexivity.
@@ -186,7 +186,7 @@ Lemma gen_zip_inputs c vals :
 Proof. unfold enumerate. apply (zip_inputs_loop vals (inputs c) 0 []). Qed.
 
 Lemma gen_evaluate_agree c vals :
-  agree c (gen_evaluate (eval_fuel c (outputs c)) c vals) (evaluate c vals).
+  agree c (gen_evaluate outputs_fuel c vals) (evaluate c vals).
 Proof.
   unfold gen_evaluate, evaluate. cbv zeta. rewrite gen_zip_inputs.
   apply agree_bind; [apply agree_refl|]. intros a.
@@ -196,9 +196,9 @@ Qed.
 
 (* output_index is a Python int; the model takes a natural number (a non-negative index) *)
 Lemma gen_evaluate_at_agree c vals i :
-  agree c (gen_evaluate_at (2 * (1 + sum_arity c) + 1) c vals (Z.of_nat i)) (evaluate_at c vals i).
+  agree c (gen_evaluate_at at_fuel c vals (Z.of_nat i)) (evaluate_at c vals i).
 Proof.
-  unfold gen_evaluate_at, evaluate_at. cbv zeta. rewrite gen_zip_inputs.
+  unfold gen_evaluate_at, evaluate_at, at_fuel. cbv zeta. rewrite gen_zip_inputs.
   apply agree_bind; [apply agree_refl|]. intros a.
   rewrite gen_output_at_index_nat.
   apply agree_bind; [apply agree_refl|]. intros o.
@@ -243,10 +243,10 @@ Proof.
 Qed.
 
 Lemma gen_get_truth_table_agree c :
-  agree c (gen_get_truth_table (eval_fuel c (outputs c)) c) (get_truth_table c).
+  agree c (gen_get_truth_table outputs_fuel c) (get_truth_table c).
 Proof.
   unfold gen_get_truth_table, get_truth_table. rewrite gen_input_size_eq.
-  pose proof (agree_mapM c (fun x => gen_evaluate (eval_fuel c (outputs c)) c (map inj x))
+  pose proof (agree_mapM c (fun x => gen_evaluate outputs_fuel c (map inj x))
                          (fun x => evaluate c (map inj x)) (all_bool_vectors (length (inputs c)))
                          (fun x => gen_evaluate_agree c (map inj x))) as Hm.
   destruct Hm as [Hm|(Hh & (e & Hg) & Hs)].
